@@ -86,13 +86,13 @@ Definition n_ (p : pc) : nat := cnt (at_pc p) ths.
 Definition ntok0 : nat := cnt tok0 ths.
 Definition n_owner : nat :=
   n_ SLoad2 + n_ SUnlockRet + n_ SStore + n_ SSpawn + n_ SUnlock + n_ MStore + n_ MDrain +
-  n_ MLoad + n_ MCas + n_ MStoreReq + n_ MUnlock.
+  n_ MLoad + n_ MCas + n_ MStoreReq + n_ MUnlock + n_ GLoad + n_ IDrain.
 Definition n_mid : nat := n_ SUnlockRet + n_ SSpawn + n_ SUnlock + n_ MDrain + n_ MLoad + n_ MCas.
 Definition n_A : nat :=
   n_ SSpawn + n_ DTry + n_ DCas + n_ DLock + n_ MStore + n_ MDrain + n_ MLoad + n_ MCas + n_ MStoreReq.
 Definition n_W1 : nat :=
   n_ SLoad + n_ STry + n_ SLoad2 + n_ SStore + n_ MStore + n_ DTry + n_ DCas + n_ DLock + n_ CLock +
-  n_ MStoreReq + n_ MUnlock + n_ RLoad.
+  n_ MStoreReq + n_ MUnlock + n_ RLoad + n_ GLock + n_ GLoad + n_ ILock + n_ IDrain.
 Definition n_C : nat :=
   n_ SStore + n_ SSpawn + n_ DTry + n_ DCas + n_ DLock + n_ CLock + n_ MStore + n_ MDrain.
 Definition ptr_ok : Prop :=
@@ -188,7 +188,7 @@ Qed.
 (* every thread that is not finished and not waiting for a held lock can move *)
 Lemma step_enabled s j p a :
   nth_error (ths_of s) j = Some (p, a) -> p <> Done ->
-  (p = DLock \/ p = CLock -> lock_of s = false) -> exists s', dstep s j = Some s'.
+  (p = DLock \/ p = CLock \/ p = GLock \/ p = ILock -> lock_of s = false) -> exists s', dstep s j = Some s'.
 Proof.
   intros Hj Hd Hl. unfold dstep. rewrite Hj.
   destruct p; try contradiction; try (eexists; reflexivity).
@@ -201,12 +201,16 @@ Proof.
   - destruct (lock_of s); eexists; reflexivity.
   - destruct (Nat.eqb a 0); eexists; reflexivity.
   - rewrite Hl by (left; reflexivity). eexists; reflexivity.
-  - rewrite Hl by (right; reflexivity). eexists; reflexivity.
+  - rewrite Hl by (right; left; reflexivity). eexists; reflexivity.
   - destruct (wb_of s); eexists; reflexivity.
   - destruct (Nat.eqb (ds_of s) 2); eexists; reflexivity.
   - destruct (Nat.eqb (ds_of s) 2); eexists; reflexivity.
   - destruct (Nat.eqb (ds_of s) 1); eexists; reflexivity.
   - destruct (ds_of s) as [|[|?]]; [destruct (Nat.eqb a 0)| |]; eexists; reflexivity.
+  - rewrite Hl by (right; right; left; reflexivity). eexists; reflexivity.
+  - destruct (Nat.eqb (ds_of s) 1); eexists; reflexivity.
+  - rewrite Hl by (right; right; right; reflexivity). eexists; reflexivity.
+  - destruct (wb_of s); eexists; reflexivity.
 Qed.
 
 (* ------------------------------------------------------------------ *)
@@ -218,7 +222,8 @@ Ltac pose_counts H :=
   pose proof (H SStore); pose proof (H SSpawn); pose proof (H SCas); pose proof (H SUnlock);
   pose proof (H DTry); pose proof (H DCas); pose proof (H DLock); pose proof (H CLock);
   pose proof (H MStore); pose proof (H MDrain); pose proof (H MLoad); pose proof (H MCas);
-  pose proof (H MStoreReq); pose proof (H MUnlock); pose proof (H RLoad); pose proof (H Done); pose proof (H RdLoad).
+  pose proof (H MStoreReq); pose proof (H MUnlock); pose proof (H RLoad); pose proof (H Done); pose proof (H RdLoad);
+  pose proof (H GLock); pose proof (H GLoad); pose proof (H ILock); pose proof (H IDrain).
 
 Ltac simp_counts := cbn [b2n pceq pc_to_nat Nat.eqb tok0 fst snd orb andb] in *.
 
@@ -358,6 +363,17 @@ Proof.
     + simple_step Hi SLoad a. finish HI Hi.
     + simple_step Hi SLoad a. finish HI Hi.
     + simple_step Hi Done a. finish HI Hi.
+  - (* GLock *) destruct lock; [discriminate|]. intros E; injection E as <-. simple_step Hi GLoad a. finish HI Hi.
+  - (* GLoad *)
+    destruct ds as [|[|ds]]; cbn [Nat.eqb]; intros E; injection E as <-.
+    + simple_step Hi MUnlock a. finish HI Hi.
+    + simple_step Hi MStore a. finish HI Hi.
+    + simple_step Hi MUnlock a. finish HI Hi.
+  - (* ILock *) destruct lock; [discriminate|]. intros E; injection E as <-. simple_step Hi IDrain a. finish HI Hi.
+  - (* IDrain *)
+    destruct wb as [|wb]; intros E; injection E as <-.
+    + simple_step Hi MUnlock a. finish HI Hi.
+    + simple_step Hi IDrain a. finish HI Hi.
 Qed.
 
 (* ------------------------------------------------------------------ *)
@@ -418,11 +434,13 @@ Proof.
   destruct s as [[[ds lock] wb] ths].
   unfold CInv in HI. cbn [ds_of lock_of wb_of ths_of fst snd] in HI.
   destruct HI as (I1 & I2 & I3 & I4 & I5 & I6 & I7).
-  assert (Hen : forall j p a, nth_error ths j = Some (p, a) -> p <> Done -> (p = DLock \/ p = CLock) /\ lock = true).
+  assert (Hen : forall j p a, nth_error ths j = Some (p, a) -> p <> Done -> (p = DLock \/ p = CLock \/ p = GLock \/ p = ILock) /\ lock = true).
   { intros j p a Hj Hd. destruct lock.
     - split; [|reflexivity]. destruct (pc_eq_dec p DLock) as [->|N1]; [left; reflexivity|].
-      destruct (pc_eq_dec p CLock) as [->|N2]; [right; reflexivity|]. exfalso.
-      destruct (step_enabled (ds, true, wb, ths) j p a Hj Hd) as (s' & Hs); [intros [->| ->]; contradiction|].
+      destruct (pc_eq_dec p CLock) as [->|N2]; [right; left; reflexivity|].
+      destruct (pc_eq_dec p GLock) as [->|N3]; [right; right; left; reflexivity|].
+      destruct (pc_eq_dec p ILock) as [->|N4]; [right; right; right; reflexivity|]. exfalso.
+      destruct (step_enabled (ds, true, wb, ths) j p a Hj Hd) as (s' & Hs); [intros [->|[->|[->| ->]]]; contradiction|].
       rewrite Hno in Hs. discriminate Hs.
     - exfalso. destruct (step_enabled (ds, false, wb, ths) j p a Hj Hd) as (s' & Hs); [reflexivity|].
       rewrite Hno in Hs. discriminate Hs. }
@@ -432,7 +450,7 @@ Proof.
     assert (Hex : 1 <= n_owner ths \/ 1 <= ntok0 ths) by lia.
     destruct Hex as [Hex|Hex].
     - unfold n_owner in Hex.
-      assert (exists q, 1 <= n_ ths q /\ q <> Done /\ q <> DLock /\ q <> CLock) as (q & Hq & Q1 & Q2 & Q3).
+      assert (exists q, 1 <= n_ ths q /\ q <> Done /\ q <> DLock /\ q <> CLock /\ q <> GLock /\ q <> ILock) as (q & Hq & Q1 & Q2 & Q3 & Q4 & Q5).
       { destruct (Nat.eq_dec (n_ ths SLoad2) 0); [|exists SLoad2; repeat split; [lia|discriminate..]].
         destruct (Nat.eq_dec (n_ ths SUnlockRet) 0); [|exists SUnlockRet; repeat split; [lia|discriminate..]].
         destruct (Nat.eq_dec (n_ ths SStore) 0); [|exists SStore; repeat split; [lia|discriminate..]].
@@ -443,13 +461,15 @@ Proof.
         destruct (Nat.eq_dec (n_ ths MLoad) 0); [|exists MLoad; repeat split; [lia|discriminate..]].
         destruct (Nat.eq_dec (n_ ths MCas) 0); [|exists MCas; repeat split; [lia|discriminate..]].
         destruct (Nat.eq_dec (n_ ths MStoreReq) 0); [|exists MStoreReq; repeat split; [lia|discriminate..]].
-        exists MUnlock. repeat split; [lia|discriminate..]. }
+        destruct (Nat.eq_dec (n_ ths MUnlock) 0); [|exists MUnlock; repeat split; [lia|discriminate..]].
+        destruct (Nat.eq_dec (n_ ths GLoad) 0); [|exists GLoad; repeat split; [lia|discriminate..]].
+        exists IDrain. repeat split; [lia|discriminate..]. }
       destruct (cnt_pos _ _ Hq) as (j & [p a] & Hj & Hp). unfold at_pc in Hp. cbn [fst] in Hp. apply pceq_eq in Hp. subst p.
-      destruct (Hen j q a Hj Q1) as [[E|E] _]; contradiction.
+      destruct (Hen j q a Hj Q1) as [[E|[E|[E|E]]] _]; contradiction.
     - destruct (cnt_pos _ _ Hex) as (j & [p a] & Hj & Hp). unfold tok0 in Hp. cbn [fst snd] in Hp.
       apply andb_true_iff in Hp. destruct Hp as [Hp _]. apply orb_true_iff in Hp.
       destruct Hp as [Hp|Hp]; apply pceq_eq in Hp; subst p;
-        (destruct (Hen j _ a Hj ltac:(discriminate)) as [[E|E] _]; discriminate E). }
+        (destruct (Hen j _ a Hj ltac:(discriminate)) as [[E|[E|[E|E]]] _]; discriminate E). }
   subst lock.
   assert (Hdone : forall j p a, nth_error ths j = Some (p, a) -> p = Done).
   { intros j p a Hj. destruct (pc_eq_dec p Done) as [E|N]; [exact E|]. destruct (Hen j p a Hj N) as [_ E]. discriminate E. }
@@ -457,7 +477,7 @@ Proof.
   { intros q Hq. unfold n_. apply cnt_zero. intros j [p a] Hj. unfold at_pc. cbn [fst].
     rewrite (Hdone j p a Hj). destruct (pceq Done q) eqn:E; [|reflexivity]. apply pceq_eq in E. subst q. contradiction. }
   unfold n_A, n_W1, n_C in *.
-  pose proof (Hz WPush ltac:(discriminate)). pose proof (Hz WLoad ltac:(discriminate)). pose proof (Hz WCasReq ltac:(discriminate)). pose proof (Hz WCasP2R ltac:(discriminate)). pose proof (Hz SLoad ltac:(discriminate)). pose proof (Hz STry ltac:(discriminate)). pose proof (Hz SLoad2 ltac:(discriminate)). pose proof (Hz SUnlockRet ltac:(discriminate)). pose proof (Hz SStore ltac:(discriminate)). pose proof (Hz SSpawn ltac:(discriminate)). pose proof (Hz SCas ltac:(discriminate)). pose proof (Hz SUnlock ltac:(discriminate)). pose proof (Hz DTry ltac:(discriminate)). pose proof (Hz DCas ltac:(discriminate)). pose proof (Hz DLock ltac:(discriminate)). pose proof (Hz CLock ltac:(discriminate)). pose proof (Hz MStore ltac:(discriminate)). pose proof (Hz MDrain ltac:(discriminate)). pose proof (Hz MLoad ltac:(discriminate)). pose proof (Hz MCas ltac:(discriminate)). pose proof (Hz MStoreReq ltac:(discriminate)). pose proof (Hz MUnlock ltac:(discriminate)). pose proof (Hz RLoad ltac:(discriminate)). pose proof (Hz RdLoad ltac:(discriminate)).
+  pose proof (Hz WPush ltac:(discriminate)). pose proof (Hz WLoad ltac:(discriminate)). pose proof (Hz WCasReq ltac:(discriminate)). pose proof (Hz WCasP2R ltac:(discriminate)). pose proof (Hz SLoad ltac:(discriminate)). pose proof (Hz STry ltac:(discriminate)). pose proof (Hz SLoad2 ltac:(discriminate)). pose proof (Hz SUnlockRet ltac:(discriminate)). pose proof (Hz SStore ltac:(discriminate)). pose proof (Hz SSpawn ltac:(discriminate)). pose proof (Hz SCas ltac:(discriminate)). pose proof (Hz SUnlock ltac:(discriminate)). pose proof (Hz DTry ltac:(discriminate)). pose proof (Hz DCas ltac:(discriminate)). pose proof (Hz DLock ltac:(discriminate)). pose proof (Hz CLock ltac:(discriminate)). pose proof (Hz MStore ltac:(discriminate)). pose proof (Hz MDrain ltac:(discriminate)). pose proof (Hz MLoad ltac:(discriminate)). pose proof (Hz MCas ltac:(discriminate)). pose proof (Hz MStoreReq ltac:(discriminate)). pose proof (Hz MUnlock ltac:(discriminate)). pose proof (Hz RLoad ltac:(discriminate)). pose proof (Hz RdLoad ltac:(discriminate)). pose proof (Hz GLock ltac:(discriminate)). pose proof (Hz GLoad ltac:(discriminate)). pose proof (Hz ILock ltac:(discriminate)). pose proof (Hz IDrain ltac:(discriminate)).
   assert (ds = 0) by lia. subst ds. assert (wb = 0) by lia. subst wb.
   unfold drained. cbn [ds_of lock_of wb_of ths_of fst snd Nat.eqb negb andb].
   rewrite !andb_true_r. unfold all_done. apply forallb_forall. intros [p a] Hin.
@@ -483,4 +503,37 @@ Theorem drained_any_population_with_readers w c rd rf : forall sched,
 Proof.
   intros sched s T. apply CInv_terminal_drained; [|exact T].
   apply (CInv_reachableR w c rd rf). apply run_sched_reachable. constructor.
+Qed.
+
+Lemma CInv_initA w c rd rf g iv : CInv (dinitA w c rd rf g iv).
+Proof.
+  unfold CInv, dinitA. cbn [ds_of lock_of wb_of ths_of mk fst snd].
+  set (l := repeat (WPush, 0) w ++ repeat (CLock, 0) c ++ repeat (RdLoad, 0) rd ++ repeat (RdLoad, 1) rf ++
+            repeat (GLock, 0) g ++ repeat (ILock, 0) iv).
+  assert (Hn : forall q, n_ l q = w * b2n (pceq WPush q) + c * b2n (pceq CLock q) + rd * b2n (pceq RdLoad q) + rf * b2n (pceq RdLoad q) +
+                          g * b2n (pceq GLock q) + iv * b2n (pceq ILock q)).
+  { intros q. unfold n_, l. rewrite !cnt_app, !cnt_repeat. unfold at_pc. cbn [fst]. lia. }
+  assert (Ht : ntok0 l = 0).
+  { unfold ntok0, l. rewrite !cnt_app, !cnt_repeat. cbn [tok0 fst snd pceq pc_to_nat Nat.eqb orb andb b2n]. lia. }
+  unfold n_owner, n_mid, n_A, n_W1, n_C. rewrite !Hn, Ht.
+  cbn [b2n pceq pc_to_nat Nat.eqb].
+  split; [lia|]. split; [lia|]. split; [lia|]. split; [lia|]. split; [lia|]. split; [lia|].
+  intros i a Hi. exfalso. apply nth_error_In in Hi. unfold l in Hi.
+  repeat (apply in_app_or in Hi; destruct Hi as [Hi|Hi]; [apply repeat_spec in Hi; discriminate Hi|]).
+  apply repeat_spec in Hi. discriminate Hi.
+Qed.
+
+Theorem CInv_reachableA w c rd rf g iv s : reachable (dinitA w c rd rf g iv) s -> CInv s.
+Proof.
+  intros R. induction R as [|s i s' R IH Hs]; [apply CInv_initA|]. exact (CInv_step s i s' IH Hs).
+Qed.
+
+(* ... and with any number of callers of the other operations that take the eviction lock: GetMaximum /
+   WeightedSize (maintenance only when the status is "required") and InvalidateAll (its own drain of the
+   write buffer); each ends with Unlock followed by rescheduleCleanUpIfIncomplete *)
+Theorem drained_any_population_with_lock_holders w c rd rf g iv : forall sched,
+  let s := run_sched (dinitA w c rd rf g iv) sched in terminal s = true -> drained s = true.
+Proof.
+  intros sched s T. apply CInv_terminal_drained; [|exact T].
+  apply (CInv_reachableA w c rd rf g iv). apply run_sched_reachable. constructor.
 Qed.
